@@ -69,6 +69,7 @@ def check(ctx):
     check_single_version(ctx)
     check_drop_level_guards(ctx)
     check_flatten_rebinding(ctx)
+    check_flatten_union_complete(ctx)
     check_stats_through_tree(ctx)
     # the level that was dropped is filled in from the finer assignment by
     # the parent table of *that* level (shared with C01)
@@ -399,3 +400,62 @@ def check_stats_through_tree(ctx):
                'workers receive the leaf means read through that tree'
                if ok else
                f'workers receive leaf_node_matrix={fmt_term(tl)[:80]}')
+
+
+def check_flatten_union_complete(ctx):
+    """under flatten the single 'None' group is the union of the marker
+    lists of *every* parent of the table: the loop that builds the union
+    may leave out the bookkeeping keys (compared with string constants:
+    'log', 'metadata') and nothing else.  A list that is skipped for any
+    other reason loses the genes that only it names, and the flat mapping
+    no longer uses the markers the table provides."""
+    from ..rules import coverage as CV
+    db = ctx.db
+    fi = db.fn('cli.from_specified_markers:_run_mapping')
+    rule = 'R-COVER/flatten-union'
+    cfg = cfg_of(fi)
+    loops = []
+    for n in ast.walk(fi.node):
+        if isinstance(n, ast.For) and isinstance(n.target, ast.Name):
+            for c in ast.walk(n):
+                if isinstance(c, ast.Call) and isinstance(
+                        c.func, ast.Attribute) and c.func.attr in (
+                            'union', 'update') and any(
+                                isinstance(x, ast.Subscript)
+                                and isinstance(x.slice, ast.Name)
+                                and x.slice.id == n.target.id
+                                for a in c.args for x in ast.walk(a)):
+                    loops.append((n, c))
+    if not loops:
+        ctx.fail(rule, '_run_mapping:flatten', fi.loc(),
+                 'the union of the marker lists under flatten was not '
+                 'found')
+        return
+    for (lp, call) in loops:
+        v = lp.target.id
+
+        def act(node, _c=call):
+            return any(c is _c for c in cfg.calls_in(node))
+
+        def allow(test, edge, _v=v):
+            # k not in ('log', 'metadata') / k == 'log' ...
+            if not (isinstance(test, ast.Compare) and len(test.ops) == 1
+                    and isinstance(test.left, ast.Name)
+                    and test.left.id == _v):
+                return False
+            r = test.comparators[0]
+            consts = r.elts if isinstance(r, (ast.Tuple, ast.List,
+                                              ast.Set)) else [r]
+            if not all(isinstance(x, ast.Constant) and isinstance(
+                    x.value, str) for x in consts):
+                return False
+            op = test.ops[0]
+            if isinstance(op, (ast.NotIn, ast.NotEq)):
+                return edge == 'false'
+            if isinstance(op, (ast.In, ast.Eq)):
+                return edge == 'true'
+            return False
+        CV.check_cover(ctx, fi, rule, '_run_mapping:flatten-union', lp, act,
+                       allow=allow, what='parent',
+                       consequence='its marker list is left out of the '
+                       'flat marker set')
